@@ -8,7 +8,7 @@
                   (each call is made after the previous one returned: the model ignores a call made earlier)
    clause_* i o = first step of the observation o at which the clause fails (Spec.v); None = holds throughout *)
 From Coq Require Import List Bool Arith ZArith NArith.
-From AUC Require Import C12.Model C12.Spec C12.Yields C12.Clean C12.Aon C12.Witness.
+From AUC Require Import C12.Model C12.Spec C12.Yields C12.Clean C12.Aon C12.Witness C12.Fail C12.Witness2.
 Import ListNotations.
 
 (* All or nothing, for every schedule of the domain - every number of services, every reaction sequence, every latency:
@@ -53,6 +53,17 @@ Theorem C12_clean_shutdown_partial :
 Proof. exact clean_shutdown_partial. Qed.
 Print Assumptions C12_clean_shutdown_partial.
 
+(* A failed renewal is reported once, for every schedule of the domain: at every step the on_event(service, []) calls made
+   so far are a prefix of the services whose renewal has failed so far (a renewal SUBSCRIBE of the renewal task answered
+   "unreachable", or its fresh SUBSCRIBE after a refused renewal answered with anything but a 200 carrying a SID), in
+   the order in which the failures were delivered; the device is unavailable only if one of these failures was
+   "unreachable"; and whenever the event loop is idle and no unsubscribe call has been made, every failure has been
+   reported and the device is unavailable exactly when one of them was "unreachable". *)
+Theorem C12_failure_reported :
+  forall i : input, in_domain i = true -> clause_reported i (model_run i) = None.
+Proof. exact failure_reported. Qed.
+Print Assumptions C12_failure_reported.
+
 (* Non-vacuity. *)
 Example C12_clean_inhabited :
   in_domain w_clean = true /\ kf_inflight w_clean = false /\
@@ -71,3 +82,10 @@ Example C12_rollback_inhabited :
   map (fun x => (o_calls x, o_routed x, o_subs x)) (skipn 10 (model_run w_rollback)) = [([Some (SExc EResponse)], [], [])] /\
   map (fun q => fst (fst (fst q))) (concat (map o_newreqs (model_run w_rollback))) = [QSub; QSub; QUnsub].
 Proof. exact rollback_example. Qed.
+
+Example C12_failures_inhabited :
+  in_domain w_failed = true /\
+  concat (map o_events (model_run w_failed)) = [0%nat; 1%nat] /\
+  map o_avail (skipn 10 (model_run w_failed)) = [true; false; false; false; false; false] /\
+  map (fun q => fst (fst (fst q))) (concat (map o_newreqs (model_run w_failed))) = [QSub; QSub; QRenew; QRenew; QSub].
+Proof. exact failed_example. Qed.
